@@ -29,6 +29,7 @@ SIG_RANK2N = "GMRF.__init__|rank:order2-neumann"
 SIG_SMALLN = "FiniteDifference._create_diff_matrix|periodic:N-below-stencil-width"
 SIG_BIGDIM = "GMRF.__init__|logdet:dim-above-MAX_DIM_INV"
 SIG_RANK_OTHER = "GMRF.__init__|rank-logdet:other"
+SQRT_EPS = 2.0 ** -26
 
 
 _STATE = {}
@@ -51,8 +52,21 @@ def repair_state():
             rk = g is not None and int(g._rank) == 7
         except Exception:
             pass
-        _STATE.update(acc=acc, rk=rk)
+        bd = False
+        try:
+            # cd6ea4a: above MAX_DIM_INV the log(sqrt(eps)) of every null direction is taken out of the regularised logdet
+            g, _ = observe_gmrf(1, 7, "periodic", 1, big=True)
+            ev = np.linalg.eigvalsh(ref_matrix(1, "periodic", 7).T @ ref_matrix(1, "periodic", 7))
+            bd = g is not None and abs(float(g._logdet) - float(np.sum(np.log(ev[1:])))) < 1e-3
+        except Exception:
+            pass
+        _STATE.update(acc=acc, rk=rk, bd=bd)
     return _STATE["acc"], _STATE["rk"]
+
+
+def bigdim_repaired():
+    repair_state()
+    return _STATE["bd"]
 
 
 def acc_state():
@@ -642,6 +656,11 @@ def gmrf_cases(pd, dim, bc, order, rng, nvec=2, big=False, mdi=None):
     if int(g._rank) != true_rank:
         fail = "GMRF(dim=%d, %s, order %d, %d-d): reported rank %d, the precision has rank %d; reported logdet %r, pseudo-log-determinant %r" % (
             dim, bc, order, pd, g._rank, true_rank, logdet, true_logdet)
+    elif big and bigdim_repaired() and bc in ("periodic", "neumann") and finite and \
+            -1e-7 * (1 + abs(true_logdet)) <= logdet - true_logdet <= SQRT_EPS * float(np.sum(1.0 / ev[pos_ev])) + 1e-7 * (1 + abs(true_logdet)):
+        # repaired regularised branch: sum ln(l_i + e) lies in [pseudo-logdet, pseudo-logdet + e trace(P^+)]
+        # (Props/C20_logdet.v: C20_logdet_regularised_bound); 1e-7 for the rounding of the ~sqrt(eps) pivots
+        pass
     elif not finite or abs(logdet - true_logdet) > 1e-9 * (1 + abs(true_logdet)):
         fail = "GMRF(dim=%d, %s, order %d, %d-d): reported logdet %r, the precision has pseudo-log-determinant %r (rank %d)" % (
             dim, bc, order, pd, logdet, true_logdet, true_rank)
@@ -653,11 +672,18 @@ def gmrf_cases(pd, dim, bc, order, rng, nvec=2, big=False, mdi=None):
     e_obs = math.exp(logdet) if finite and logdet < 600 else 0.0
     # the model's pseudo-determinant is exact for every nullity (characteristic-polynomial coefficient over Z)
     expr = "check_true_rank_st %s %s %s && check_true_expdet_any %s %s %s" % (cst(), args, cnat(int(g._rank)), cst(), args, cq(e_obs))
+    reg_repaired = big and bigdim_repaired() and repair_state()[1] and bc in ("periodic", "neumann")
+    if reg_repaired:
+        # repaired regularised branch: exp(_logdet) = det(P + e I) / e^nullity exactly as coded, equal to the characteristic
+        # polynomial at -e, and within [pdet, pdet (1 + 2 e trace(P^+))] of the exact pseudo-determinant
+        expr = "check_true_rank_st %s %s %s && check_expdet_reg_repaired %s %s %s" % (cst(), args, cnat(int(g._rank)), cst(), args, cq(e_obs))
     out.append(Case(expr=expr, meta=dict(base, op="gmrf_rank_logdet", prec=prec,
                                          coq_model="option_map (fun g => (zrank %s (g_prec g), zpdet %s (g_prec g) (%s - zrank %s (g_prec g)))) (gmrf_init_gen (fdm_of %s) false %s)" % (cnat(dim), cnat(dim), cnat(dim), cnat(dim), cst(), args)),
                     cell=cell + "/rank-logdet", kind="TOLERANCE", impl_fail=fail, signature=sig))
     # (d) faithful exp(logdet) where the model describes the code's value
-    if big and bc in ("periodic", "neumann"):
+    if reg_repaired:
+        pass                                    # the coded value is part of the rank-logdet case above
+    elif big and bc in ("periodic", "neumann"):
         # large-dimension branch: log det of the regularised matrix P + sqrt(eps) I; compared after division by sqrt(eps) = 2^-26
         e_reg = math.exp(logdet + 26 * math.log(2.0)) if finite and logdet < 500 else 0.0
         out.append(Case(expr="check_expdet_reg %s %s" % (args, cq(e_reg)),
